@@ -380,6 +380,40 @@ class CFG:
         tc = self.blocks[a].get('tc')
         return self.fn.nodes.get(tc) if tc is not None else None
 
+    def branch_atom(self, a):
+        """(atom, negated): the operand whose value actually decides the branch
+        at the end of block a. For short-circuit conditions clang reports the
+        enclosing && / || expression as the terminator condition of the block
+        that evaluates its last operand; control reaches that block only when
+        the earlier operands did not decide, so the branch is on the rightmost
+        operand."""
+        n = self.cond_node(a)
+        neg = False
+        # a block that short-circuit edges jump INTO branches on the value of the
+        # whole expression (clang did not thread the edges): keep it whole
+        joined = False
+        for p in self.pred.get(a, ()):
+            blk = self.blocks[p]
+            if blk.get('tk') == 'BinaryOperator' and len(blk['succ']) == 2 and blk.get('ts') is not None:
+                ts = self.fn.nodes.get(blk['ts'])
+                op = ts.get('op') if ts else None
+                if (op == '&&' and blk['succ'][1] == a) or (op == '||' and blk['succ'][0] == a):
+                    joined = True
+        if joined:
+            return n, neg
+        while is_node(n):
+            if n['k'] == 'un' and n['op'] == '!':
+                n = n['e']; neg = not neg
+            elif n['k'] == 'call' and n.get('opc') == '!' and n.get('args'):
+                n = n['args'][0]; neg = not neg
+            elif n['k'] == 'bin' and n['op'] in ('&&', '||'):
+                n = n['rhs']
+            elif n['k'] == 'cast':
+                n = n['e']
+            else:
+                break
+        return n, neg
+
     def dominating_conditions(self, block):
         """[(cond_node, polarity)] for every two-way branch whose one edge
         dominates `block` (i.e. block is reachable only through that edge)."""
@@ -397,10 +431,11 @@ class CFG:
             # block reachable from a only via one of the successors?
             via_true = self._reaches(s_true, block, avoid={a})
             via_false = self._reaches(s_false, block, avoid={a})
+            atom, neg = self.branch_atom(a)
             if via_true and not via_false:
-                out.append((self.cond_node(a), True, a))
+                out.append((atom, not neg, a))
             elif via_false and not via_true:
-                out.append((self.cond_node(a), False, a))
+                out.append((atom, neg, a))
         return out
 
     def _reaches(self, src, dst, avoid=()):
